@@ -29,6 +29,9 @@ from c13_env import (Ctl, EXC, EXC_NAMES, F_DONE, F_NORMAL, F_RAISED, F_RELEASE,
 GUARD = 5.0            # seconds: a call that takes longer is a Hang
 STALL = 10.0           # seconds the harness waits for a worker to become quiescent before failing closed
 FIN_TIMEOUT = 0.05     # the "finite timeout" handed to *_wait / close (workers are quiescent when it is used)
+FREE_TIMEOUT = 0.4     # the same in free-running mode (no quiescence control: generous against scheduling noise)
+FREE_PAUSE = 0.12      # free-running mode: pause between operations
+FREE_WAKE = 0.8        # free-running mode: a blocked call lets sleeping workers wake up after this long
 FORBIDDEN_CALLS = ("reset", "step", "close", "_setattr", "_check_spaces")
 KINDS = ("reset", "step", "call")
 
@@ -131,6 +134,8 @@ class ProcProxy:
 
     def join(self, timeout=None):
         run, j, proc = self.run, self.j, self.proc
+        if proc.is_alive():
+            proc.join(0.3)                        # a worker that was just told to close / sent SIGTERM needs a moment
         for _ in range(50):
             if not proc.is_alive():
                 break
@@ -161,6 +166,7 @@ class Run:
         self.procs = []
         self.pipes = []
         self.proxied = False
+        self.free = case.get("mode") == "free"     # no proxies: true interleavings, wall-clock pauses, oracle only
 
     # ---- quiescence
     def is_blocked(self, j):
@@ -209,6 +215,8 @@ class Run:
         self.vec = AsyncPettingZooVecEnv(make_env_fns(self.ctl, self.case["plans"]))
         self.procs = list(self.vec.processes)
         pp = getattr(self.vec, "parent_pipes", None)
+        if self.free:
+            return
         if isinstance(pp, list) and len(pp) == self.n and len(self.procs) == self.n:
             self.pipes = [PipeProxy(self, j, c) for j, c in enumerate(pp)]
             self.vec.parent_pipes = list(self.pipes)
@@ -254,7 +262,20 @@ class Run:
         th = threading.Thread(target=body, daemon=True)
         t0 = time.monotonic()
         th.start()
-        th.join(GUARD)
+        if not self.free:
+            th.join(GUARD)
+        else:
+            # free-running: a call that blocks on a sleeping worker is unblocked by letting the sleeper wake up
+            nxt = FREE_WAKE
+            while th.is_alive() and time.monotonic() - t0 < GUARD:
+                th.join(0.02)
+                if th.is_alive() and time.monotonic() - t0 > nxt:
+                    js = [j for j in range(self.n) if self.is_blocked(j)]
+                    if js:
+                        self.events.append(("auto-release", js))
+                        for j in js:
+                            self.ctl.set(j, F_RELEASE, self.ctl.get(j, F_SLEEPS))
+                    nxt += FREE_WAKE
         dt = time.monotonic() - t0
         if "r" not in box:
             return ("hang", None), dt
@@ -271,8 +292,9 @@ class Run:
                 acts = [[0, 0] for _ in range(self.n)]
                 return lambda: v.step_async(acts)
             return lambda: v.call_async("ping")
+        ft = FREE_TIMEOUT if self.free else FIN_TIMEOUT
         if k == "wait":
-            t = FIN_TIMEOUT if op[2] else None
+            t = ft if op[2] else None
             return {"reset": lambda: v.reset_wait(t), "step": lambda: v.step_wait(t), "call": lambda: v.call_wait(t)}[op[1]]
         if k == "callbad":
             return lambda: v.call_async("reset")
@@ -282,7 +304,7 @@ class Run:
             fin, term = op[1], op[2]
             kw = {}
             if fin:
-                kw["timeout"] = FIN_TIMEOUT
+                kw["timeout"] = ft
             if term:
                 kw["terminate"] = True
             return lambda: v.close(**kw)
@@ -332,8 +354,11 @@ def run_case(case):
     t_case = time.monotonic()
     try:
         run.start()
-        for j in range(run.n):
-            run.settle(j)
+        if run.free:
+            time.sleep(FREE_PAUSE)
+        else:
+            for j in range(run.n):
+                run.settle(j)
         hung = False
         for op in case["ops"]:
             rec = {"op": op, "exc": None, "code": None, "seqs": None}
@@ -345,14 +370,18 @@ def run_case(case):
             nev = len(run.events)
             if op[0] == "release":
                 for j in range(run.n):
-                    run.release(j)
+                    if run.free:
+                        run.ctl.set(j, F_RELEASE, run.ctl.get(j, F_SLEEPS))
+                    else:
+                        run.release(j)
                 rec["out"], rec["dt"] = "Ok", 0.0
             elif op[0] == "kill":
                 j = op[1]
                 if j < run.n and run.procs[j].is_alive():
                     os.kill(run.procs[j].pid, signal.SIGKILL)
                     run.procs[j].join(STALL)
-                    run.settle(j)
+                    if not run.free:
+                        run.settle(j)
                 rec["out"], rec["dt"] = "Ok", 0.0
             else:
                 sent0 = list(run.env_sent)
@@ -369,15 +398,17 @@ def run_case(case):
                     rec["out"] = "Ok"
                     if op[0] == "wait":
                         rec["seqs"] = extract_seqs(op, val, run.n)
-                if op[0] in ("async", "setattr") and rec["out"] == "Ok":
+                if op[0] in ("async", "setattr") and rec["out"] == "Ok" and not run.free:
                     rec["expect_seqs"] = [s - 1 for s in run.env_sent]
                 rec["sent"] = [a - b for a, b in zip(run.env_sent, sent0)]
-                if rec["out"] != "Hang":
+                if rec["out"] != "Hang" and not run.free:
                     for j in range(run.n):
                         if not run.pipes[j]._closed:
                             run.settle(j)
                         elif not run.procs[j].is_alive():
                             run.procs[j].join(0.5)
+            if run.free:
+                time.sleep(FREE_PAUSE)
             rec["events"] = [list(e) for e in run.events[nev:]]
             rec["state"] = run.vec._state.value
             rec["closed"] = bool(run.vec.closed)
@@ -443,6 +474,10 @@ def cq_op(op):
 # ------------------------------------------------------------------------------------------------
 # the driver
 # ------------------------------------------------------------------------------------------------
+def ckey(case):
+    return json.dumps({"plans": case["plans"], "ops": case["ops"], "mode": case.get("mode", "serial")}, sort_keys=True)
+
+
 def legal_close(ops):
     return ops + [["close", False, False]]
 
@@ -471,6 +506,11 @@ class C13(vlib.Driver):
     def generate(self, tier, rng):
         cases = []
         quick = tier == "quick"
+        self.exhaustive = True
+        self.notes = ["exhaustive sub-runs: family `misuse` (all call sequences up to length %d over the reduced alphabet, no faults) and "
+                      "family `fault-exhaustive` (all sequences up to length %d under 5 elementary fault plans); the other families are "
+                      "sampled / seeded" % ((3, 2) if quick else (4, 3)),
+                      "family `free` runs without the harness proxies (real interleavings) and is judged by the oracle only"]
         normal = lambda n: [[] for _ in range(n)]
         # (A) misuse: every sequence over the reduced alphabet, no faults — exhaustive
         alpha = [["async", "reset"], ["async", "step"], ["async", "call"], ["wait", "reset", False], ["wait", "step", True],
@@ -568,6 +608,29 @@ class C13(vlib.Driver):
                 if o[0] == "close":
                     break
             cases.append({"plans": plans, "ops": legal_close(ops), "fam": "random"})
+        # (F) every short sequence over the reduced alphabet (+ release) under each elementary fault plan — exhaustive
+        alpha_f = alpha + [["release"], ["wait", "reset", True]]
+        plans_f = [[[["raise", 1]], []], [[], [["raise", 3]]], [[["sleep"]], []], [[], [["die"]]],
+                   [[["normal"], ["raise", 0]], [["normal"], ["sleep"]]]]
+        for plans in plans_f:
+            for L in range(1, (2 if quick else 3) + 1):
+                for seq in itertools.product(alpha_f, repeat=L):
+                    cases.append({"plans": plans, "ops": legal_close([list(o) for o in seq]), "fam": "fault-exhaustive"})
+        # (E) free-running (no proxies, real interleavings of concurrently failing workers): oracle only
+        fam_e = []
+        for kind in KINDS:
+            for cl in closes:
+                fam_e.append(([[["raise", 1]], [["raise", 2]], [["raise", 3]]], [["async", kind], ["wait", kind, False], ["async", "reset"], ["close"] + cl]))
+                fam_e.append(([[["normal"], ["raise", 0]], [["normal"], ["die"]], []],
+                              [["async", "reset"], ["wait", "reset", False], ["async", kind], ["wait", kind, True], ["close"] + cl]))
+                fam_e.append(([[["sleep"]], [["raise", 3]]], [["async", kind], ["wait", kind, True], ["wait", kind, False], ["close"] + cl]))
+                fam_e.append(([[], [["sleep"]], []], [["async", kind], ["close"] + cl, ["async", kind]]))
+                fam_e.append(([[], [], []], [["async", kind], ["kill", 2], ["wait", kind, False], ["setattr"], ["close"] + cl]))
+                fam_e.append(([[], []], [["wait", kind, False], ["async", kind], ["async", "reset"], ["setattr"], ["callbad"],
+                                         ["wait", kind, True], ["callbad"], ["wait", "call", False], ["close"] + cl, ["setattr"]]))
+        rng.shuffle(fam_e)
+        for plans, ops in fam_e[: (24 if quick else len(fam_e))]:
+            cases.append({"plans": plans, "ops": ops, "fam": "free", "mode": "free"})
         for c in cases:
             c["ops"] = self.prune(c["ops"])
         self.prefetch(cases)
@@ -592,18 +655,21 @@ class C13(vlib.Driver):
     def prefetch(self, cases):
         todo = {}
         for c in cases:
-            k = json.dumps({"plans": c["plans"], "ops": c["ops"]}, sort_keys=True)
+            k = ckey(c)
             if k not in self.cache and k not in todo:
                 todo[k] = c
         if not todo:
             return
         keys = list(todo)
-        with ProcessPoolExecutor(max_workers=int(os.environ.get("C13_JOBS", "4"))) as ex:
-            for k, obs in zip(keys, ex.map(_run_case_json, keys, chunksize=4)):
-                self.cache[k] = obs
+        try:
+            with ProcessPoolExecutor(max_workers=int(os.environ.get("C13_JOBS", "4"))) as ex:
+                for k, obs in zip(keys, ex.map(_run_case_json, keys, chunksize=4)):
+                    self.cache[k] = obs
+        except Exception as e:  # a broken pool must not break the check: the remaining cases run inline
+            self.notes = list(getattr(self, "notes", [])) + [f"parallel prefetch failed ({type(e).__name__}: {e}); cases run inline"]
 
     def run_impl(self, case):
-        k = json.dumps({"plans": case["plans"], "ops": case["ops"]}, sort_keys=True)
+        k = ckey(case)
         obs = self.cache.pop(k, None)
         if obs is None:
             obs = run_case(case)
@@ -613,6 +679,8 @@ class C13(vlib.Driver):
 
     # ---------- model term
     def coq_term(self, case, obs):
+        if case.get("mode") == "free":
+            return None                            # real interleavings: the oracle only
         tr = obs["trace"]
         # after a timeout the pipes hold answers of an earlier call; a *_wait of a different kind then fails inside
         # the parent with an arbitrary exception (reported by the oracle as timeout-stale): K compares the prefix
@@ -638,6 +706,7 @@ class C13(vlib.Driver):
     def oracle(self, case, obs):
         out = []
         n = len(case["plans"])
+        free = case.get("mode") == "free"
         if obs["orphans"]:
             out.append(Violation("no-orphans", "orphan-processes", f"worker processes survived the teardown: {obs['orphans']}"))
         clean = True            # no timeout / dead worker / failed call so far
@@ -652,7 +721,8 @@ class C13(vlib.Driver):
             k = op[0]
             sb, cb = r["state_before"], r["closed_before"]
             where = f"op {i} {op}"
-            unchanged = (r["state"] == sb and r["closed"] == cb and r["alive"] == r["alive_before"])
+            # (free-running: a worker that raised earlier may finish exiting at any moment)
+            unchanged = (r["state"] == sb and r["closed"] == cb and (free or r["alive"] == r["alive_before"]))
             if k in ("release", "kill"):
                 if k == "kill":
                     killed = True
@@ -699,10 +769,14 @@ class C13(vlib.Driver):
                 if bad:
                     sig = "close:raises" if r["out"] != "Ok" else "close:leaves-workers" if any(r["alive"]) else "close:incomplete"
                     out.append(Violation("close-total", sig, f"{where} (state {sb}, alive before {r['alive_before']}): " + "; ".join(bad)))
-                if (op[1] or op[2]) and any(e[0] in ("blocked-on-sleeper", "join-on-sleeper") for e in r["events"]):
-                    out.append(Violation("timeout-stale", "timeout-stale:close-waits-for-sleeper",
-                                         f"{where}: close with a timeout/terminate waited for a sleeping worker "
-                                         f"(state was reset to default by an earlier timeout): {r['events']}"))
+                if (op[1] or op[2]) and any(e[0] in ("blocked-on-sleeper", "join-on-sleeper", "auto-release") for e in r["events"]):
+                    if op[1] and not op[2] and sb == "default":
+                        out.append(Violation("timeout-stale", "timeout-stale:close-waits-for-sleeper",
+                                             f"{where}: close(timeout) waited for a sleeping worker "
+                                             f"(the state had been reset to default by an earlier timeout): {r['events']}"))
+                    else:
+                        out.append(Violation("close-total", "close:waits-for-sleeper",
+                                             f"{where} (state {sb}): close with a timeout / terminate=True waited for a sleeping worker: {r['events']}"))
                 continue
             if k == "async" and r["out"] == "Ok":
                 pending_expect = r.get("expect_seqs")
@@ -726,7 +800,7 @@ class C13(vlib.Driver):
                                          f"{where}: worker(s) {r['blocked_before']} sleeping past the timeout, outcome {r['out']} ({r['exc']})"))
                 if r["out"] == "Timeout" and not (k == "wait" and op[2]):
                     out.append(Violation("timeout-reported", f"timeout:spurious:{k}", f"{where}: timeout although no timeout was given"))
-                elif r["out"] == "Timeout" and clean and not any(r["blocked_before"]) and all(r["alive_before"]):
+                elif r["out"] == "Timeout" and clean and not any(r["blocked_before"]) and all(r["alive_before"]) and not free:
                     out.append(Violation("timeout-reported", f"timeout:spurious:{k}", f"{where}: timeout although every worker had answered"))
                 # ---- clause 2: an exception raised in a sub-environment reaches the caller with its type
                 if clean and r["out"] != "Timeout" and others_alive:
@@ -766,7 +840,7 @@ class C13(vlib.Driver):
 
     # ---------- bookkeeping
     def key(self, case):
-        return hashlib.sha1(json.dumps({"plans": case["plans"], "ops": case["ops"]}, sort_keys=True).encode()).hexdigest()
+        return hashlib.sha1(ckey(case).encode()).hexdigest()
 
     def nontrivial(self, case, obs):
         for r in obs["trace"]:
